@@ -75,6 +75,11 @@ FAILING = [
     ("runtime", "unit {N} = 1 m\nlet {N}_q = 1 {N} / 0", [], ["{N}", "{N}_q"]),
     ("runtime", "fn {N}(x) = 1 / x\n{N}(0)", [], ["{N}"]),
     ("runtime", "struct {N}T {{ a: Length }}\nlet {N}_v = {N}T {{ a: 1 m / 0 }}", [], ["{N}_v"]),
+    # units with prefixes and aliases defined (and used in prefixed form) by an input that then fails
+    ("runtime", "@metric_prefixes\n@aliases({N}s, {N}x: short)\nunit {N}: Length = 3 m\nlet {N}_q = 2 kilo{N} + 1 k{N}x + 1 milli{N}s\nlet {N}_r = {N}_q / 0",
+     [], ["{N}", "{N}_q", "kilo{N}", "k{N}x", "milli{N}s", "{N}s"]),
+    ("type", "@binary_prefixes\nunit {N} = 2 bit\nlet {N}_z: Time = 1 kibi{N}", [], ["{N}", "{N}_z", "kibi{N}"]),
+    ("runtime", "@metric_prefixes\nunit {N}\n1 mega{N} -> {N}\nassert(1 {N} > 2 {N})", [], ["{N}", "mega{N}", "micro{N}"]),
     # inputs made of expression statements only: earlier ones succeed (and would become `ans`), a later one fails
     ("runtime_expr_only", "1 / 0", [], []),
     ("runtime_expr_only", "12 kg\n1 / 0", [], []),
@@ -122,6 +127,11 @@ def probe_battery(gen, modules, defined):
             out.append(p)
     for n in defined:
         out.append(n)                       # must be unknown in both
+    # more units defined afterwards (name tables grow again), then the names once more and their re-definition
+    if defined:
+        out += [f"unit vf_pad_{i}_{len(defined)}" for i in range(4)] + ["@metric_prefixes\nunit vf_padp: Time = 3 s", "2 kilovf_padp"]
+    for n in defined:
+        out.append(n)
         out.append(f"let {n} = 42 m")       # re-definition must work in both
         out.append(n)
     out += gen.probes()
@@ -240,7 +250,7 @@ def replay(sh, case):
         sh.violation(case, f"`{s}`: {json.dumps(oa)[:300]} vs {json.dumps(ob)[:300]}")
 
 
-LEVEL_TEXT = ("Fault enumeration by forked twins: for every fault class (12 classes, 43 failing templates, each optionally "
+LEVEL_TEXT = ("Fault enumeration by forked twins: for every fault class (12 classes, 46 failing templates, each optionally "
               "preceded by statements that would succeed) a failing input is injected into a clone of a random session; the "
               "monitor then drives reference and clone with the same suffix and a probe battery and compares every "
               "observation, plus the quiescence invariant (stack depth == globals) through the hook.")
